@@ -359,12 +359,14 @@ Record smap := mkSM {
   s_ib : inmap; s_iu : inmap;
   s_reset : bool;
   s_zomb : list Z;     (* OpenStreamSync callers still parked on maps replaced by ResetFor0RTT *)
-  s_zacc : list Z      (* AcceptStream callers still parked on replaced maps *)
+  s_zacc : list Z;     (* AcceptStream callers still parked on replaced maps *)
+  s_rsa : bool;        (* m.supportsResetStreamAt: given to streams created from now on *)
+  s_rsaIDs : list Z    (* open outgoing streams whose send side has supportsResetStreamAt, ascending *)
 }.
 
 Definition init_sm (client : bool) (maxBidi maxUni : Z) : smap :=
   mkSM client maxBidi maxUni (init_out false client) (init_out true client)
-       (init_in false client maxBidi) (init_in true client maxUni) false [] [].
+       (init_in false client maxBidi) (init_in true client maxUni) false [] [] false [].
 
 Inductive op :=
 | OOpen (uni : bool)
@@ -376,7 +378,7 @@ Inductive op :=
 | OAcceptCancel (uni : bool) (a : Z)
 | ODelete (id : Z)
 | OMaxStreams (uni : bool) (n : Z)
-| OTransportParams (nb nu : Z)
+| OTransportParams (nb nu : Z) (rsa : bool)   (* rsa: the parameters carry reset_stream_at *)
 | ORecv (id : Z)       (* getReceiveStream: STREAM, RESET_STREAM, STREAM_DATA_BLOCKED *)
 | OSend (id : Z)       (* getSendStream: MAX_STREAM_DATA, STOP_SENDING *)
 | OClose (e : Z)
@@ -386,17 +388,19 @@ Inductive op :=
 Definition s_out (s : smap) (uni : bool) : outmap := if uni then s_ou s else s_ob s.
 Definition s_in (s : smap) (uni : bool) : inmap := if uni then s_iu s else s_ib s.
 Definition set_out (s : smap) (uni : bool) (m : outmap) : smap :=
-  if uni then mkSM (s_client s) (s_maxBidi s) (s_maxUni s) (s_ob s) m (s_ib s) (s_iu s) (s_reset s) (s_zomb s) (s_zacc s)
-  else mkSM (s_client s) (s_maxBidi s) (s_maxUni s) m (s_ou s) (s_ib s) (s_iu s) (s_reset s) (s_zomb s) (s_zacc s).
+  if uni then mkSM (s_client s) (s_maxBidi s) (s_maxUni s) (s_ob s) m (s_ib s) (s_iu s) (s_reset s) (s_zomb s) (s_zacc s) (s_rsa s) (s_rsaIDs s)
+  else mkSM (s_client s) (s_maxBidi s) (s_maxUni s) m (s_ou s) (s_ib s) (s_iu s) (s_reset s) (s_zomb s) (s_zacc s) (s_rsa s) (s_rsaIDs s).
 Definition set_in (s : smap) (uni : bool) (m : inmap) : smap :=
-  if uni then mkSM (s_client s) (s_maxBidi s) (s_maxUni s) (s_ob s) (s_ou s) (s_ib s) m (s_reset s) (s_zomb s) (s_zacc s)
-  else mkSM (s_client s) (s_maxBidi s) (s_maxUni s) (s_ob s) (s_ou s) m (s_iu s) (s_reset s) (s_zomb s) (s_zacc s).
+  if uni then mkSM (s_client s) (s_maxBidi s) (s_maxUni s) (s_ob s) (s_ou s) (s_ib s) m (s_reset s) (s_zomb s) (s_zacc s) (s_rsa s) (s_rsaIDs s)
+  else mkSM (s_client s) (s_maxBidi s) (s_maxUni s) (s_ob s) (s_ou s) m (s_iu s) (s_reset s) (s_zomb s) (s_zacc s) (s_rsa s) (s_rsaIDs s).
 Definition set_zomb (s : smap) (z : list Z) : smap :=
-  mkSM (s_client s) (s_maxBidi s) (s_maxUni s) (s_ob s) (s_ou s) (s_ib s) (s_iu s) (s_reset s) z (s_zacc s).
+  mkSM (s_client s) (s_maxBidi s) (s_maxUni s) (s_ob s) (s_ou s) (s_ib s) (s_iu s) (s_reset s) z (s_zacc s) (s_rsa s) (s_rsaIDs s).
 Definition set_zacc (s : smap) (z : list Z) : smap :=
-  mkSM (s_client s) (s_maxBidi s) (s_maxUni s) (s_ob s) (s_ou s) (s_ib s) (s_iu s) (s_reset s) (s_zomb s) z.
+  mkSM (s_client s) (s_maxBidi s) (s_maxUni s) (s_ob s) (s_ou s) (s_ib s) (s_iu s) (s_reset s) (s_zomb s) z (s_rsa s) (s_rsaIDs s).
 Definition set_reset (s : smap) (b : bool) : smap :=
-  mkSM (s_client s) (s_maxBidi s) (s_maxUni s) (s_ob s) (s_ou s) (s_ib s) (s_iu s) b (s_zomb s) (s_zacc s).
+  mkSM (s_client s) (s_maxBidi s) (s_maxUni s) (s_ob s) (s_ou s) (s_ib s) (s_iu s) b (s_zomb s) (s_zacc s) (s_rsa s) (s_rsaIDs s).
+Definition set_rsa (s : smap) (b : bool) (ids : list Z) : smap :=
+  mkSM (s_client s) (s_maxBidi s) (s_maxUni s) (s_ob s) (s_ou s) (s_ib s) (s_iu s) (s_reset s) (s_zomb s) (s_zacc s) b ids.
 
 (** id.InitiatedBy() == m.perspective *)
 Definition by_self (s : smap) (id : Z) : bool := Bool.eqb (id_by_client id) (s_client s).
@@ -427,7 +431,8 @@ Definition t_delete (s : smap) (id : Z) : smap * res * list frame :=
   if by_self s id then via_out s uni (ostep (s_out s uni) (OpDelete id))
   else via_in s uni (istep (s_in s uni) (IDelete id)).
 
-Definition tstep (s : smap) (o : op) : smap * res * list frame :=
+(** everything except the RESET_STREAM_AT bookkeeping *)
+Definition tstep_core (s : smap) (o : op) : smap * res * list frame :=
   match o with
   | OOpen uni =>
     if s_reset s then (s, RErr Err0RTT, []) else via_out s uni (ostep (s_out s uni) OpOpen)
@@ -451,7 +456,7 @@ Definition tstep (s : smap) (o : op) : smap * res * list frame :=
   | ODelete id => t_delete s id
   | OMaxStreams uni n =>
     via_out s uni (ostep (s_out s uni) (OpSetMax (num_to_id n uni (s_client s))))
-  | OTransportParams nb nu =>
+  | OTransportParams nb nu _ =>
     let '(s1, _, f1) := via_out s false (ostep (s_ob s) (OpSetMax (num_to_id nb false (s_client s)))) in
     let '(s2, _, f2) := via_out s1 true (ostep (s_ou s1) (OpSetMax (num_to_id nu true (s_client s)))) in
     (s2, RUnit, f1 ++ f2)
@@ -459,15 +464,45 @@ Definition tstep (s : smap) (o : op) : smap * res * list frame :=
   | OSend id => t_get_send s id
   | OClose e =>
     (mkSM (s_client s) (s_maxBidi s) (s_maxUni s) (o_close (s_ob s) e) (o_close (s_ou s) e)
-          (in_close (s_ib s) e) (in_close (s_iu s) e) (s_reset s) (s_zomb s) (s_zacc s), RUnit, [])
+          (in_close (s_ib s) e) (in_close (s_iu s) e) (s_reset s) (s_zomb s) (s_zacc s) (s_rsa s) (s_rsaIDs s), RUnit, [])
   | OReset =>
     let z := s_zomb s ++ o_dead (o_close (s_ob s) Err0RTT) ++ o_dead (o_close (s_ou s) Err0RTT) in
     (mkSM (s_client s) (s_maxBidi s) (s_maxUni s)
           (init_out false (s_client s)) (init_out true (s_client s))
           (init_in false (s_client s) (s_maxBidi s)) (init_in true (s_client s) (s_maxUni s))
-          true z (s_zacc s ++ i_parked (s_ib s) ++ i_parked (s_iu s)), RUnit, [])
+          true z (s_zacc s ++ i_parked (s_ib s) ++ i_parked (s_iu s)) (s_rsa s) (s_rsaIDs s), RUnit, [])
   | OUseReset => (set_reset s false, RUnit, [])
   end.
+
+(** sorted insertion without duplicates *)
+Fixpoint zinsert (x : Z) (l : list Z) : list Z :=
+  match l with
+  | [] => [x]
+  | y :: r => if x <? y then x :: l else if x =? y then l else y :: zinsert x r
+  end.
+
+(** supportsResetStreamAt of the open outgoing streams (fixes/C15-reset-stream-at-without-consent.patch):
+    a stream is created with the map's current flag; the transport-parameter handler of streams_map.go stores the peer's
+    flag and switches the extension on for the streams that are already open ONLY if the peer
+    enabled it; deleting a stream / replacing the maps forgets it. *)
+Definition rsa_update (o : op) (s' : smap) (r : res) : smap :=
+  match o with
+  | OOpen _ | OSyncCall _ _ _ | OSyncWake _ _ =>
+    match r with
+    | RId id => if s_rsa s' then set_rsa s' true (zinsert id (s_rsaIDs s')) else s'
+    | _ => s'
+    end
+  | OTransportParams _ _ rsa =>
+    set_rsa s' rsa
+            (if rsa then fold_right zinsert (s_rsaIDs s') (o_streams (s_ob s') ++ o_streams (s_ou s'))
+             else s_rsaIDs s')
+  | ODelete id => set_rsa s' (s_rsa s') (zremove id (s_rsaIDs s'))
+  | OReset => set_rsa s' (s_rsa s') []
+  | _ => s'
+  end.
+
+Definition tstep (s : smap) (o : op) : smap * res * list frame :=
+  let '(s', r, fr) := tstep_core s o in (rsa_update o s' r, r, fr).
 
 Fixpoint trun (s : smap) (ops : list op) : smap * list (res * list frame) :=
   match ops with
